@@ -21,7 +21,8 @@ RULE = ('targets = random TT of exact rank rho (continuous cores), d=2..6, '
 REQUIRED = {'exact-fixed-rank': 60, 'exact-growing': 60, 'cache-same-cores': 100,
     'cache-counters': 100, 'cache-contents': 100, 'info-r': 200,
     'info-e_vld': 100, 'info-e': 200, 'shape': 200,
-    'exact-when-interrupted': 100, 'rank-growth': 60}
+    'exact-when-interrupted': 100, 'rank-growth': 60,
+    'objective-arrays-untouched': 60}
 ASSUMPTIONS = ['objective = dense table lookup, so values do not depend on '
     'the batch they are requested in (needed for the bitwise cache claim)',
     'targets with sigma_rho/sigma_1 < 1e-5 in an unfolding are not judged '
@@ -318,6 +319,36 @@ def run_case(case, ctx):
                     plain.result), 'a run continued on the dictionary of an '
                     'interrupted run differs from the run without cache')
             ctx.event('interrupted-cached-run-' + how)
+
+    # (1b'') the objective's own arrays: an objective that memoises whole
+    # batches hands out the same array object for a repeated request (fixed
+    # rank, sweep >= 2); its arrays belong to it
+    if rng.random() < 0.5:
+        rm = crossh.Run(T, memo=True)
+        runm = crossh.execute(rm, Y0, **kw)
+        if runm.error is None:
+            ctx.check('objective-arrays-untouched', rm.memo_intact(),
+                'TT-cross wrote into an array that the objective had '
+                'returned (seen when the objective hands out the same array '
+                'for a repeated batch)', shape=n, mode=mode)
+            ctx.check('cache-same-cores', same_cores(runm.result,
+                plain.result), 'run with a batch-memoising objective differs '
+                'from the run with a fresh array per request')
+        elif not isinstance(runm.error, crossh.Abort):
+            raise runm.error
+    # answers in float32 (values exactly representable): cache or not, the
+    # same cores
+    if rng.random() < 0.4:
+        T32 = T.astype(np.float32).astype(float)
+        r32 = [crossh.execute(crossh.Run(T32, answer_dtype=np.float32), Y0,
+            **dict(kw, **extra)) for extra in ({}, {'cache': {}})]
+        if all(r_.error is None for r_ in r32):
+            if r32[1].info['stop'] != 'conv':
+                ctx.check('cache-same-cores', same_cores(r32[0].result,
+                    r32[1].result) and all(G.dtype == np.float64 for G in
+                    r32[0].result), 'objective answering in float32: the '
+                    'cores with and without cache differ (or are not float64)')
+            ctx.event('float32-answers')
 
     # (1c) nswp = 0: only the pre-iteration, no evaluation; info and cache
     # must still describe the returned tensor
